@@ -226,7 +226,7 @@ func trim(s string) string {
 }
 
 func body(r *ev.Run) {
-	r.Rule("histories = (a) every labelled tree with <=N new headers (parent in {genesis, unknown hash, any earlier header}) x work-class alphabet x every arrival permutation, plus one duplicate re-submission per history; (b) seeded random histories (forks, orphans, late parents, duplicates, forbidden hashes, all bits classes incl. zero/negative/truncating/huge-exponent/random). distinct = distinct shape signatures (parent relation + bits per arrival position); non-trivial = contains a fork, orphan, duplicate or reorganisation as reported by the reference model.")
+	r.Rule("histories = (a) every labelled tree with <=N new headers (parent in {genesis, unknown hash, any earlier header}) x work-class alphabet x every arrival permutation, plus one duplicate re-submission per history; (b) seeded random histories (forks, orphans, late parents, duplicates, forbidden hashes, all bits classes incl. zero/negative/truncating/huge-exponent/random/work next to 2^32, 2^64, 2^128, 2^192); (c) reorganisations over 500 and 2002 heights (thorough: 499..2600, around the multiples of 500 and 1000). distinct = distinct shape signatures (parent relation + bits per arrival position); non-trivial = contains a fork, orphan, duplicate or reorganisation as reported by the reference model.")
 	r.Assume("reference model refmodel/ is a faithful transcription of the C01 statement", "SQLite engine only", "mainnet genesis as chain root")
 	r.Require("reorgs_observed", 20)
 	r.Require("orphans_observed", 20)
@@ -271,6 +271,19 @@ func body(r *ev.Run) {
 		})
 	}
 	r.Count("bounded_exhaustive_max_headers", int64(maxN))
+	// (c) deep reorganisations: the relabelling of a whole branch across the sizes at which statements get batched
+	depths := []int{500, 2002}
+	if r.Thorough() {
+		depths = []int{499, 500, 501, 999, 1000, 1001, 1999, 2000, 2001, 2002, 2003, 2600}
+	}
+	for _, d := range depths {
+		caseID := fmt.Sprintf("deep/%d", d)
+		r.Do(caseID, func() {
+			rng := r.Rand(caseID)
+			e.runHistory(caseID, gen.DeepReorg(rng, rig.Genesis(), rng.Intn(4), d), 1<<30)
+			r.Count("deep_reorganisations", 1)
+		})
+	}
 	// (b) random
 	nRandom := r.Pick(400, 6000)
 	for i := 0; i < nRandom; i++ {
@@ -283,7 +296,7 @@ func body(r *ev.Run) {
 				PUnknown:   []float64{0, 0.03, 0.1}[rng.Intn(3)],
 				PLate:      []float64{0, 0.05, 0.2}[rng.Intn(3)],
 				PFork:      []float64{0.05, 0.2, 0.5}[rng.Intn(3)],
-				Classes:    []string{"M", "MH", "MHL", "MHLZ", "MHLZNTUX", "MMMMHLR", "R", "ZNUX", "MZ", "MHC", "C"}[rng.Intn(11)],
+				Classes:    []string{"M", "MH", "MHL", "MHLZ", "MHLZNTUX", "MMMMHLR", "R", "ZNUX", "MZ", "MHC", "C", "W", "MW"}[rng.Intn(13)],
 				Forbidden:  mb.ForbiddenHeaders(),
 				PForbidden: []float64{0, 0.02}[rng.Intn(2)],
 			}
